@@ -100,6 +100,9 @@ def case_strategy(draw):
         # the storing entity also forwards what it receives: it was made a storage USER of the class before it
         # was made the provider (the order of the two configuration calls is the application's business)
         'scu_first': draw(st.sampled_from([False, False, True])),
+        # file source whose file meta information lacks the Media Storage SOP Instance UID (written by sloppy
+        # software; the library caters for it by looking into the data set)
+        'meta_without_instance_uid': draw(st.sampled_from([False, False, True])),
     }
 
 
@@ -191,7 +194,14 @@ def run_case(case):
                             fds = pydicom.dataset.FileDataset(path, ds, file_meta=fm, preamble=b'\0' * 128)
                             fds.is_implicit_VR = ts == svc.IMPLICIT
                             fds.is_little_endian = ts != svc.BIG
-                            fds.save_as(path, write_like_original=False)
+                            if case.get('meta_without_instance_uid'):
+                                fds.save_as(path, write_like_original=False)
+                                full = pydicom.dcmread(path)
+                                del full.file_meta.MediaStorageSOPInstanceUID
+                                full.file_meta.FileMetaInformationGroupLength = 0
+                                full.save_as(path, write_like_original=True)
+                            else:
+                                fds.save_as(path, write_like_original=False)
                             if case.get('reuse_path'):
                                 os.utime(path, (1600000000, 1600000000))
                             arg = path
@@ -278,6 +288,10 @@ FIXED = [
             'PatientID': 'p7', 'EncapsulatedDocument': {'len': 500, 'salt': 4}},
      'ts': 1, 'client_max': 16384, 'server_max': 16384, 'source': 'memory', 'reception': 'tempfile',
      'outcome': ['status', 0], 'repeat': 2, 'align': None, 'prior_failure': True, 'scu_first': True},
+    {'ds': {'SOPClassUID': svc.SC_STORAGE, 'SOPInstanceUID': '1.2.826.0.1.3680043.9.15.8', 'PatientName': 'No^MetaUid',
+            'StudyDescription': 'structured report, no pixel data'},
+     'ts': 1, 'client_max': 16384, 'server_max': 16384, 'source': 'file', 'reception': 'tempfile',
+     'outcome': ['status', 0], 'repeat': 2, 'align': None, 'meta_without_instance_uid': True},
     # PDUs far larger than what one TCP read delivers on loopback
     {'ds': {'SOPClassUID': svc.CT_STORAGE, 'SOPInstanceUID': '1.2.826.0.1.3680043.9.15.4', 'PatientName': 'Big^Pdu',
             'EncapsulatedDocument': {'len': 1500001, 'salt': 5}},
@@ -310,7 +324,7 @@ def one(ctx, case, label):
         if again:
             return
     ctx.case(case, nfrag >= 2 or case['repeat'] > 1 or case.get('align') is not None,
-             labels=[label, 'ts=%d' % case['ts']] + (['after-failed-store'] if case.get('prior_failure') else []) + [ 'src=' + case['source'] + ('-same-path' if case.get('reuse_path') and case['source'] == 'file' and case['repeat'] > 1 else ''), 'recv=' + case['reception'], 'align=%s' % case.get('align'),
+             labels=[label, 'ts=%d' % case['ts']] + (['after-failed-store'] if case.get('prior_failure') else []) + (['file-meta-without-instance-uid'] if case.get('meta_without_instance_uid') and case['source'] == 'file' else []) + [ 'src=' + case['source'] + ('-same-path' if case.get('reuse_path') and case['source'] == 'file' and case['repeat'] > 1 else ''), 'recv=' + case['reception'], 'align=%s' % case.get('align'),
                      'repeat=%d' % case['repeat'], 'multi-fragment' if nfrag >= 2 else 'small'],
              sample={k: (v if k != 'ds' else {kk: (vv if not isinstance(vv, list) else '<%d items>' % len(vv))
                                                 for kk, vv in v.items()}) for k, v in case.items()})
